@@ -12,6 +12,10 @@ import (
 	"golang.org/x/crypto/ssh"
 )
 
+// permKeyFingerprint is the Permissions extension under which the server callback records the
+// fingerprint of the key it answered for.
+const permKeyFingerprint = "p2p-key-fingerprint"
+
 type Conn struct {
 	swarm      *Swarm
 	remoteAddr Addr
@@ -25,11 +29,16 @@ type Conn struct {
 }
 
 func newServer(s *Swarm, netConn net.Conn) (*Conn, error) {
-	var pubKey ssh.PublicKey
+	// The callback is also invoked for keys a client merely offers, in any order; only the
+	// Permissions returned for the key that then authenticated are attached to the connection.
+	// So every offered key is remembered by its fingerprint, and the connection is named after
+	// the one its Permissions point to.
+	offered := map[string]ssh.PublicKey{}
 	config := &ssh.ServerConfig{
 		PublicKeyCallback: func(md ssh.ConnMetadata, pk ssh.PublicKey) (*ssh.Permissions, error) {
-			pubKey = pk
-			return &ssh.Permissions{}, nil
+			fp := ssh.FingerprintSHA256(pk)
+			offered[fp] = pk
+			return &ssh.Permissions{Extensions: map[string]string{permKeyFingerprint: fp}}, nil
 		},
 	}
 	config.AddHostKey(s.signer)
@@ -38,6 +47,10 @@ func newServer(s *Swarm, netConn net.Conn) (*Conn, error) {
 	if err != nil {
 		return nil, err
 	}
+	if sconn.Permissions == nil {
+		return nil, errors.New("no permissions after connection")
+	}
+	pubKey := offered[sconn.Permissions.Extensions[permKeyFingerprint]]
 	if pubKey == nil {
 		return nil, errors.New("pubkey not set after connection")
 	}
